@@ -25,6 +25,14 @@ def run_real(prog, clock, end=progmc.END, driver="start", raw=()):
         sim.initialize(m, SingleReplication("r", base, T(0), T(end)))
         if driver == "start":
             sim.start()
+        elif driver == "steps":
+            # single steps until nothing executable is left, then start
+            for _ in range(60):
+                el = sim.eventlist()
+                if el.is_empty() or el.peek_first().time > base + T(end):
+                    break
+                sim.step()
+            sim.start()
         elif driver == "upto-beyond":
             # an exclusive bound beyond the end: the horizon is the end
             sim.run_up_to(base + T(end + 1))
@@ -120,6 +128,12 @@ def worker(task):
                         sample = {"clock": clock,
                                   "program": progmc.prog_to_json(prog),
                                   "trace": got["trace"]}
+                if var and var[1][0] == "c":
+                    # the same cancelling program driven by single steps
+                    n += 1
+                    b2, _ = judge(prog, clock, driver="steps")
+                    bad = bad + [(kd, "driven by step(): %s" % (d,))
+                                 for kd, d in b2]
                 if k >= 2 and not var:
                     # every second event is an instance of a user subclass of
                     # SimEvent handed to schedule_event(): one event order
@@ -280,7 +294,7 @@ def replay(data):
     prog = progmc.prog_from_json(data["program"])
     end = data.get("end", progmc.END)
     bad, got = judge(prog, data["clock"], end)
-    for drv in ("upto-beyond", "uptoi-end"):
+    for drv in ("upto-beyond", "uptoi-end", "steps"):
         bad = bad + judge(prog, data["clock"], end, drv)[0]
     bad = bad + judge(prog, data["clock"], end,
                       raw=set(range(1, len(prog) - 1, 2)))[0]
